@@ -10,10 +10,10 @@ PROP = "C02"
 
 def workload(tier: str, seed: int) -> tuple[list[dict], dict]:
     if tier == "quick":
-        want = {"corpus": 1, "core-exh": 110, "core-rand": 70, "edge": 15, "bunched": 60}
+        want = {"corpus": 1, "core-exh": 110, "core-rand": 70, "edge": 15, "bunched": 60, "loop-families": 1}
         ks, cap = (2,), 1500
     else:
-        want = {"corpus": 1, "core-exh": 100000, "core-rand": 1500, "edge": 150, "bunched": 1000}
+        want = {"corpus": 1, "core-exh": 100000, "core-rand": 1500, "edge": 150, "bunched": 1000, "loop-families": 1}
         ks, cap = (2, 3), 4000
     defs = lcase.definitions(tier, seed + 1000, want)
     cases, stats = lcase.s1_cases(defs, seed, k_list=ks, schedules=2, corpus_schedules=8, check_extra=True,
